@@ -16,7 +16,7 @@ RULE = ("one evaluation = one (entity class, stanza): the stanza is either the d
 ASSUMPTIONS = ["'documented shape' = the class's own test fixture / docstring as transcribed in vf/catalogue.py; enumeration-valued attributes keep the documented literal",
                "protobuf payloads inside <proto> are compared field by field on the fields the sender set (C10's comparator), not byte by byte",
                "a catalogue disagreement is reviewed as a possible transcription error before it is called a defect"]
-REQUIRED = ["fixture_classes", "hand_classes", "receive_roundtrips", "send_roundtrips", "values_redrawn", "lists_varied", "normalisations", "outgoing_classes", "receive_side_classes_found", "receive_side_classes_catalogued", "keys_mixed_cases", "keys_mixed_ok", "optional_variants", "optional_ok"]
+REQUIRED = ["fixture_classes", "hand_classes", "receive_roundtrips", "send_roundtrips", "values_redrawn", "lists_varied", "normalisations", "outgoing_classes", "aliasing_probes", "aliasing_ok", "receive_side_classes_found", "receive_side_classes_catalogued", "keys_mixed_cases", "keys_mixed_ok", "optional_variants", "optional_ok"]
 TIMEOUT = {"quick": 600, "thorough": 7200}
 
 
@@ -309,6 +309,70 @@ def keys_result_mixed(acc, cls, name, tree, r):
     acc.count("keys_mixed_ok")
 
 
+def aliasing_probe(acc, cls, name, tree, r):
+    """Two entities built from equal stanzas are independent objects: editing every text/bytes field of the first one (as an
+    application does before forwarding it) must not change what a later, identical stanza converts to."""
+    try:
+        e1 = cls.fromProtocolTreeNode(treeeq.to_node(tree))
+        n1 = treeeq.to_tuple(e1.toProtocolTreeNode())
+    except Exception:
+        return
+    touched = [0]
+
+    def scribble(o, depth=0):
+        if depth > 5 or o is None:
+            return
+        if hasattr(o, "__dict__") and type(o).__module__.startswith("yowsup"):
+            for k, v in list(vars(o).items()):
+                if isinstance(v, str) and v:
+                    try:
+                        setattr(o, k, v + "~edited")
+                        touched[0] += 1
+                    except Exception:
+                        pass
+                elif isinstance(v, (bytes, bytearray)) and v:
+                    try:
+                        setattr(o, k, bytes(v) + b"~")
+                        touched[0] += 1
+                    except Exception:
+                        pass
+                elif isinstance(v, list):
+                    for x in v:
+                        scribble(x, depth + 1)
+                    try:
+                        v.append(v[0]) if v and isinstance(v[0], str) else None
+                    except Exception:
+                        pass
+                elif isinstance(v, dict):
+                    for x in v.values():
+                        scribble(x, depth + 1)
+                else:
+                    scribble(v, depth + 1)
+    scribble(e1)
+    if not touched[0]:
+        return
+    acc.count("aliasing_probes")
+    w = {"class": cls.__name__, "shape": name, "origin": "aliasing", "stanza": treeeq.describe(tree, limit=6)}
+    try:
+        e2 = cls.fromProtocolTreeNode(treeeq.to_node(tree))
+        n2 = treeeq.to_tuple(e2.toProtocolTreeNode())
+    except Exception as ex:  # noqa
+        acc.violation("%s:aliasing:raises:%s" % (cls.__name__, type(ex).__name__), "after an earlier entity of the same stanza was edited, converting the stanza again raised %r" % (ex,), w)
+        return
+    ta, pa = split_proto(n1)
+    tb, pb = split_proto(n2)
+    d = treeeq.diff(ta, tb, by_value=True)
+    if not d:
+        for x, y in zip(pa, pb):
+            d = proto_diff(x, y)
+            if d:
+                break
+    if d:
+        acc.violation("%s:aliasing" % cls.__name__, "an identical stanza converts differently after an earlier entity built from it was edited (shared state between entities): %s" % d, w)
+        return
+    acc.count("aliasing_ok")
+
+
 def diffkey(d):
     """Mechanism part of a treeeq diff: location without values."""
     loc = d.split(": ")[0]
@@ -514,6 +578,7 @@ def run(spec, acc):
             judge_receive(acc, cls, name, t2, "fixture-mutated", True, codec)
             if k < spec.get("opt", 3):
                 optional_probe(acc, cls, name, t2, r, codec)
+                aliasing_probe(acc, cls, name, t2, r)
             if cls.__name__ == "ResultGetKeysIqProtocolEntity":
                 keys_result_mixed(acc, cls, name, tree, r)
         if i < nsh * 2:
@@ -535,6 +600,7 @@ def run(spec, acc):
             judge_receive(acc, cls, name, tree, "hand-shape", True, codec)
             if k < spec.get("opt", 3):
                 optional_probe(acc, cls, name, tree, r, codec)
+                aliasing_probe(acc, cls, name, tree, r)
     cat = outgoing_catalogue()
     for i, name in enumerate(sorted(cat)):
         if i % nsh != sh:
